@@ -327,6 +327,24 @@ def s16(cap):
     return "S16-give-supervisor:cap%d" % cap, src
 
 
+def s17():
+    """an ev/thread call abandoned at its deadline; the thread finishes afterwards, while its former caller is blocked in
+    ev/take on a thread channel: the take must return what was given there, exactly once"""
+    src = HEADER.format(mk=MSG["num"]) + """
+(def gate (ev/thread-chan 1)) (def tc (ev/thread-chan 0)) (def done (ev/thread-chan 1))
+(def r1 (try (ev/with-deadline 1 (ev/thread (fn [[gate done]] (ev/take gate) (ev/give done true) :late) [gate done]))
+          ([e] :timed-out)))
+(ev/give gate true)
+(ev/take done)      # the abandoned thread is finishing: its completion is on its way to this thread
+(ev/thread (fn [tc] (ev/sleep 1) (ev/give tc 555)) tc :n)
+(def r2 (ev/take tc))
+(ev/sleep 1)
+(print "got " (show [r1 r2]) " left " (ev/count tc))
+(os/exit 0)
+"""
+    return "S17-abandoned-call-then-take", src
+
+
 def parse_j(text):
     return text
 
@@ -420,6 +438,9 @@ def oracle(name, out):
     elif name.startswith("S16"):
         if got != "@[0 1 2 3 [:ok :worker-result]] left 0":
             return ("supervisor-event", "reports and final event: %s" % got)
+    elif name.startswith("S17"):
+        if got != "[:timed-out 555] left 0":
+            return ("wrong-delivery", "abandoned ev/thread call, then a take that was given 555: %s" % got)
     elif name.startswith("S10"):
         if got != "@[0 1]":
             return ("lock", "got %s" % got)
@@ -562,6 +583,12 @@ def tsan_pass(chk, scen, tmpdir):
             if tops and all("/engine/harness/" in t for t in tops):
                 chk.part("tsan-side-pass", harness_only_reports=1)
                 continue
+            if "os_exit" in rep and re.search(r"janet_(ev_)?deinit", rep):
+                # the scenario's closing (os/exit 0) tears the main VM down while a worker is still on its way out (its
+                # completion event races with the close of the self-pipe): a consequence of how the scenario is stopped -
+                # os/exit does not wait for threads - and not of message passing. Counted, not claimed.
+                chk.part("tsan-side-pass", exit_teardown_reports=1)
+                continue
             k = m.group(1).replace(" ", "-")
             chk.violation("tsan:%s:%s" % (k, name.split(":")[0]),
                           "scenario %s free-running under ThreadSanitizer reports %s: %s" % (name, m.group(1), rep[:1500]),
@@ -583,7 +610,7 @@ def main():
         scen = []
         if chk.quick:
             scen += [s1(2, 0, "num"), s1(2, 1, "tab"), s2(1, 0), s3(1, 0), s4(), s5("reader"), s5("writer"), s6(),
-                     s7("returns"), s8(), s9(), s10(), s11("select"), s11("take"), s12(), s13(), s14(40), s15(), s16(0), s16(2)]
+                     s7("returns"), s8(), s9(), s10(), s11("select"), s11("take"), s12(), s13(), s14(40), s15(), s16(0), s16(2), s17()]
             plan = {"bound": 2, "max_exec": 2500}
         else:
             for k in (1, 2, 3):
@@ -591,7 +618,7 @@ def main():
                     scen.append(s1(k, cap, "num"))
             scen += [s1(2, 1, "str"), s1(2, 0, "tup"), s1(2, 1, "tab"), s2(1, 0), s2(2, 1), s3(2, 0), s3(2, 1), s4(),
                      s5("reader"), s5("writer"), s6(), s7("returns"), s7("errors"), s8(), s9(), s10(),
-                     s11("select"), s11("take"), s12(), s13(), s14(40), s14(70), s15(), s16(0), s16(1), s16(2)]
+                     s11("select"), s11("take"), s12(), s13(), s14(40), s14(70), s15(), s16(0), s16(1), s16(2), s17()]
             plan = {"bound": 2, "max_exec": 40000}
         only = chk.args.only
         if only:
